@@ -206,12 +206,7 @@ async def _main(rp: Replay, mode) -> dict:
                 connected["up"] = True
                 R.rec(e="ConnMade")
 
-                def _cm() -> None:
-                    if proto._wait_connection_made.done():
-                        proto._wait_connection_made = lp.create_future()
-                    proto._active_hgi = None
-                    proto.connection_made(tr, ramses=True)
-                lp.inject(_cm)
+                lp.inject(lambda: proto.connection_made(tr, ramses=True))
         if ent["fw"]:
             st["fail"] += ent["fw"]
         for t in ent["ts"]:
@@ -259,9 +254,6 @@ async def _main(rp: Replay, mode) -> dict:
           b=1 if (fut is None or fut.done()) else 0, s="up" if connected["up"] else "down")
     if not connected["up"]:
         connected["up"] = True
-        if proto._wait_connection_made.done():
-            proto._wait_connection_made = loop.create_future()
-        proto._active_hgi = None
         proto.connection_made(tr, ramses=True)
         await asyncio.sleep(0.01)
     st["fail"] = 0
